@@ -221,6 +221,11 @@ def correspond(ctx, cfgbits, res, mode, label):
         for a in c.get("abs", []):
             if a.get("unmodelled") is None:
                 recs.append((i, a))
+            elif a["unmodelled"].startswith("ARRANGEMENT"):
+                ctx.count("corr_disagreements")
+                if ctx.counts["corr_disagreements"] <= 3:
+                    ctx.correspondence_break("history-model-vs-code", {"history": label, "call": i, "path": a["path"],
+                                                                       "problems": [a["unmodelled"]]})
             else:
                 ctx.count("corr_unmodelled_calls")
                 ctx.cov["distribution"].setdefault("unmodelled", {})
@@ -509,7 +514,7 @@ def run(ctx):
     for rq, r in zip(probe, again):
         if rhash(r) != rhash(fresh[("inspect", L.req_id(rq))]):
             unstable.add(L.req_id(rq))
-    slow = {L.req_id(rq) for rq in pool if fresh[("inspect", L.req_id(rq))]["t"] > 6.0}
+    slow = {L.req_id(rq) for rq in pool if fresh[("inspect", L.req_id(rq))]["t"] > 20.0}
     pool = [rq for rq in pool if L.req_id(rq) not in unstable and L.req_id(rq) not in slow]
     ctx.count("fresh_process_runs", len(fresh) + len(again))
     ctx.count("requests_unstable_in_fresh_process", len(unstable))
